@@ -462,6 +462,12 @@ func StructFieldsAsOptionsAction(explicitFields ...string) RewriteAction {
 		oldAssignments := option.Assignments
 		assignmentPathPrefix := oldAssignments[0].Path
 
+		// the option appends one element to a list (see ArrayToAppendAction): a field of
+		// that element can't be assigned on the list itself.
+		if oldAssignments[0].Method != ast.DirectAssignment || (len(assignmentPathPrefix) != 0 && assignmentPathPrefix.Last().Type.IsArray()) {
+			return []ast.Option{option}
+		}
+
 		for _, field := range structType.Fields {
 			if explicitFields != nil && !tools.ItemInList(field.Name, explicitFields) {
 				continue
